@@ -276,7 +276,11 @@ def foreign_imports(ctx, pgpy):
     from .. import keys as K_
     sk_ = K_.new_key('ed25519', name='Import Signer', email='is@x.org')
     for label, blob in variants + [('old format, indeterminate length', build.pkt(11, litbody, fmt='old', form=3)),
-                                   ('compressed, old format indeterminate length', build.pkt(8, b'\x02' + zlib.compress(build.pkt(11, litbody)), fmt='old', form=3))]:
+                                   ('compressed, old format indeterminate length', build.pkt(8, b'\x02' + zlib.compress(build.pkt(11, litbody)), fmt='old', form=3)),
+                                   # the literal INSIDE a compressed packet has the indeterminate length (every compression algorithm)
+                                   ('ZLIB-compressed literal of indeterminate length', build.pkt(8, b'\x02' + zlib.compress(build.pkt(11, litbody, fmt='old', form=3)))),
+                                   ('ZIP-compressed literal of indeterminate length', build.pkt(8, b'\x01' + zlib.compress(build.pkt(11, litbody, fmt='old', form=3), 9)[2:-4])),
+                                   ('BZ2-compressed literal of indeterminate length', build.pkt(8, b'\x03' + bz2.compress(build.pkt(11, litbody, fmt='old', form=3))))]:
         want = content + (bytes(600) if 'partial' in label else b'')
         before = {'content_sha': hashlib.sha256(want).hexdigest(), 'filename': octets(b'f.bin'), 'time': 1262304000, 'format': 'b', 'nsigs': 1, 'verifies': True}
         try:
